@@ -7,7 +7,7 @@ from typing import Dict, List, Optional
 from ..absint import Interp, Outcome
 from ..model import AnalysisError, FuncInfo, dotted, norm, walk_no_nested
 from ..report import rule
-from ..util import calls_named, cfg_of, is_const, is_name, key, kw, names_in, site_packages_source, strip_pre
+from ..util import allargs, argv, calls_named, cfg_of, is_const, is_name, key, kw, names_in, site_packages_source, strip_pre
 
 RT = "client_generators.result_types:ResultTypesGenerator."
 RF = "client_generators.result_fields:"
@@ -77,8 +77,8 @@ def c01_r1(ctx):
         raise AnalysisError("_resolve_selection_set: cannot identify the loop over selection_set.selections")
     sel = f"<elem>({norm(loops[0].iter)})"
     # exhaustiveness of the isinstance chain over SelectionNode kinds
-    tested = {n.args[1].id for n in ast.walk(loops[0]) if isinstance(n, ast.Call) and is_name(n.func, "isinstance") and len(n.args) == 2
-              and is_name(n.args[0], loops[0].target.id) and isinstance(n.args[1], ast.Name)}
+    tested = {allargs(n)[1].id for n in ast.walk(loops[0]) if isinstance(n, ast.Call) and is_name(n.func, "isinstance") and len(allargs(n)) == 2
+              and is_name(allargs(n)[0], loops[0].target.id) and isinstance(allargs(n)[1], ast.Name)}
     kinds = selection_node_kinds()
     ctx.check(set(kinds) <= tested, key(fi, "selection kinds"), f"selection kinds {sorted(set(kinds) - tested)} of graphql-core are not handled", fi.loc(),
               okmsg=f"isinstance chain covers {kinds}")
@@ -285,7 +285,7 @@ def c01_r3(ctx):
         good = norm(v) == f"self._get_field_name({fvar})"
     ctx.check(good, key(td, "alias source"), "the alias handed to _process_field_implementation is not the field's response key", td.loc(), okmsg="alias source = response key")
     gfs = calls_named(body, "self._get_field_from_schema")
-    good = len(gfs) == 1 and len(gfs[0].args) == 2 and norm(gfs[0].args[0]) == "type_name" and norm(gfs[0].args[1]) == f"{fvar}.name.value"
+    good = len(gfs) == 1 and len(allargs(gfs[0])) == 2 and norm(allargs(gfs[0])[0]) == "type_name" and norm(allargs(gfs[0])[1]) == f"{fvar}.name.value"
     ctx.check(good, key(td, "schema lookup"), "the schema field is not looked up by the field's own name (aliases must not be used for lookup)", td.loc(), okmsg="schema lookup by field.name.value")
     # _process_field_implementation: alias keyword whenever target id differs
     pf = repo.func(RT + "_process_field_implementation")
@@ -334,10 +334,10 @@ def c01_r4(ctx):
         registered, annotated = [], []
         for c in walk_no_nested(fi.node):
             if isinstance(c, ast.Call) and is_name(c.func, "RelatedClassData"):
-                cn = kw(c, "class_name") or (c.args[0] if c.args else None)
+                cn = kw(c, "class_name") or (allargs(c)[0] if allargs(c) else None)
                 registered.append(res(cn))
-            if isinstance(c, ast.Call) and is_name(c.func, "generate_annotation_name") and c.args:
-                a = c.args[0]
+            if isinstance(c, ast.Call) and is_name(c.func, "generate_annotation_name") and allargs(c):
+                a = allargs(c)[0]
                 a = env.get(a.id, a) if isinstance(a, ast.Name) and a.id not in ("class_name",) else a
                 from ..util import concat_parts
                 parts = concat_parts(a)
@@ -349,7 +349,7 @@ def c01_r4(ctx):
         ctx.check(bool(ok), key(fi, "pairing"), f"classes registered for generation {sorted(registered)} differ from classes named in annotations {sorted(annotated)}", fi.loc(),
                   okmsg=f"{fn}: {len(registered)} annotation/class pairs agree")
         # every append of RelatedClassData goes to context.related_classes
-        apps = [c for c in walk_no_nested(fi.node) if isinstance(c, ast.Call) and isinstance(c.func, ast.Attribute) and c.func.attr == "append" and c.args and isinstance(c.args[0], ast.Call) and is_name(c.args[0].func, "RelatedClassData")]
+        apps = [c for c in walk_no_nested(fi.node) if isinstance(c, ast.Call) and isinstance(c.func, ast.Attribute) and c.func.attr == "append" and allargs(c) and isinstance(allargs(c)[0], ast.Call) and is_name(allargs(c)[0].func, "RelatedClassData")]
         ctx.check(len(apps) == len(registered) and all(norm(a.func.value) == "context.related_classes" for a in apps), key(fi, "registration sink"),
                   "RelatedClassData is built but not appended to context.related_classes", fi.loc(), okmsg=f"{fn}: related classes appended to the context")
 
@@ -403,7 +403,7 @@ def c01_r5(ctx):
                 for sub in ast.walk(st):
                     if isinstance(sub, (ast.Continue, ast.Break)):
                         probs.append("a continue/break before the member append can skip fields")
-            if not is_name(direct[0].value.args[0], "field_implementation"):
+            if not is_name(allargs(direct[0].value)[0], "field_implementation"):
                 probs.append("appended member is not the field implementation")
         ex = [st for st in lp.body if isinstance(st, ast.Expr) and isinstance(st.value, ast.Call) and norm(st.value.func) == "extra_classes.extend"]
         if len(ex) != 1:
@@ -463,7 +463,7 @@ def c01_r7(ctx):
         return t
     good = len(ext) == 1 and norm(ext[0].func.value) == "result[abstract_type.name]"
     if good:
-        a = ext[0].args[0]
+        a = allargs(ext[0])[0]
         a = env.get(a.id, a) if isinstance(a, ast.Name) else a
         txt = norm(a)
         good = "set(possible_types_names) - set(types_names)" in txt
@@ -498,8 +498,18 @@ def c08_r1(ctx):
             return None
         return atom
 
-    def vals(outs):
-        return {norm(o.value) if o.value is not None else "None" for o in outs if o.kind == "return"}
+    def vals(outs, atom):
+        from ..absint import quantifier_values
+        got = set()
+        for o in outs:
+            if o.kind != "return":
+                continue
+            q = quantifier_values(strip_pre(o.value), atom) if o.value is not None else None
+            if q is not None:
+                got |= {str(x) for x in q}
+            else:
+                got.add(norm(o.value) if o.value is not None else "None")
+        return got
     cases = [
         ("fragment on a union", mk(True, True, False, False), {"True"}, "all"),
         ("fragment on another type than the selection's", mk(False, True, True, False), {"True"}, "all"),
@@ -509,7 +519,7 @@ def c08_r1(ctx):
     ]
     for name, atom, want, mode in cases:
         outs = Interp(fi, atom).run()
-        got = vals(outs)
+        got = vals(outs, atom)
         good = (got == want) if mode == "all" else bool(want & got)
         ctx.check(good, key(fi, name), f"{name}: unpack decision can be {sorted(got)}, expected {sorted(want)}", fi.loc(), okmsg=f"_unpack_fragment [{name}] -> {sorted(want)}")
     # class bases
@@ -556,7 +566,7 @@ def c08_r2(ctx):
     calls = calls_named(fi.node, "self.fragments_generator.generate")
     if len(calls) != 1:
         raise AnalysisError("_generate_fragments: fragments_generator.generate call not found")
-    ex = kw(calls[0], "exclude_names") or (calls[0].args[0] if calls[0].args else None)
+    ex = kw(calls[0], "exclude_names") or (allargs(calls[0])[0] if allargs(calls[0]) else None)
     # which data flows into the excluded set?  It must subtract every fragment used as mixin by any operation or fragment.
     pg = repo.cls("client_generators.package:PackageGenerator")
     mixin_tracked = False
@@ -642,7 +652,7 @@ def _iterative_toposort(ctx, outer: FuncInfo):
     # (1) result built from a reversed pre-order list
     for c in walk_no_nested(outer.node):
         if isinstance(c, ast.Call) and isinstance(c.func, ast.Attribute) and c.func.attr in ("extend", "append") and is_name(c.func.value, R) and c.args:
-            a = c.args[0]
+            a = allargs(c)[0]
             rev = (isinstance(a, ast.Call) and is_name(a.func, "reversed")) or (isinstance(a, ast.Subscript) and isinstance(a.slice, ast.Slice) and isinstance(a.slice.step, ast.UnaryOp))
             if rev:
                 src = a.args[0] if isinstance(a, ast.Call) else a.value
@@ -757,7 +767,7 @@ def c02_r2(ctx):
         good = len(assigns) == 1
         if good:
             v = assigns[0].value
-            comp = v.args[0] if isinstance(v, ast.Call) and is_name(v.func, "tuple") and v.args else v
+            comp = allargs(v)[0] if isinstance(v, ast.Call) and is_name(v.func, "tuple") and allargs(v) else v
             good = isinstance(comp, (ast.GeneratorExp, ast.ListComp)) and norm(comp.elt) == norm(comp.generators[0].target) \
                 and [norm(i) for i in comp.generators[0].ifs] == [f"{norm(comp.generators[0].target)}.name.value != MIXIN_NAME"] \
                 and norm(comp.generators[0].iter) in (f"{p}.directives or []", f"{p}.directives")
@@ -767,13 +777,13 @@ def c02_r2(ctx):
     o = Interp(fi, lambda e: None).run()
     good = len(o) == 1 and norm(o[0].value) == "deepcopy(node)" and any(norm(c).startswith("visit(copied_node") or norm(c).startswith("visit(") for c in ast.walk(fi.node) if isinstance(c, ast.Call) and is_name(c.func, "visit"))
     vis = [c for c in walk_no_nested(fi.node) if isinstance(c, ast.Call) and is_name(c.func, "visit")]
-    good = good and len(vis) == 1 and vis[0].args and isinstance(vis[0].args[0], ast.Name) and norm(o[0].env.get(vis[0].args[0].id) or ast.Constant(0)) == "deepcopy(node)"
+    good = good and len(vis) == 1 and allargs(vis[0]) and isinstance(allargs(vis[0])[0], ast.Name) and norm(o[0].env.get(allargs(vis[0])[0].id) or ast.Constant(0)) == "deepcopy(node)"
     ctx.check(good, key(fi, "deepcopy"), "the directive must be removed from a deep copy, not from the authored node", fi.loc(), okmsg="removal works on a deep copy")
     # both printed documents go through the removal
     gs = repo.func(RT + "get_operation_as_str")
     vals = _opstr_values(repo, plugin=False, fragments=True)
     pa = [c for v in vals for c in ast.walk(v) if isinstance(c, ast.Call) and dotted(c.func) == "print_ast"]
-    good = len(vals) == 1 and len(pa) == 2 and all(c.args and norm(c.args[0]).startswith("self._get_node_without_mixin_directive(") for c in pa)
+    good = len(vals) == 1 and len(pa) == 2 and all(allargs(c) and norm(allargs(c)[0]).startswith("self._get_node_without_mixin_directive(") for c in pa)
     ctx.check(good, key(gs, "printed nodes"), f"a printed definition bypasses the @mixin removal: {[norm(v)[:200] for v in vals]}", gs.loc(), okmsg="operation and fragments printed after @mixin removal")
 
 
@@ -811,8 +821,8 @@ def c02_r7(ctx):
     for frs in (True, False):
         vals = _opstr_values(repo, plugin=True, fragments=frs)
         want_doc = [norm(v) for v in _opstr_values(repo, plugin=False, fragments=frs)]
-        good = len(vals) == 1 and isinstance(vals[0], ast.Call) and norm(vals[0].func) == "self.plugin_manager.generate_operation_str" and len(vals[0].args) == 1 \
-            and [norm(vals[0].args[0])] == want_doc and norm(kw(vals[0], "operation_definition") or ast.Constant(0)) == "self.operation_definition"
+        good = len(vals) == 1 and isinstance(vals[0], ast.Call) and norm(vals[0].func) == "self.plugin_manager.generate_operation_str" and len(allargs(vals[0])) == 2 \
+            and [norm(allargs(vals[0])[0])] == want_doc and norm(kw(vals[0], "operation_definition") or ast.Constant(0)) == "self.operation_definition"
         ctx.check(good, key(gs, f"hook over the whole document, fragments={frs}"),
                   f"with plugins the returned document is {[norm(v)[:260] for v in vals]}; it must be hook(<document without plugins>, operation_definition=self.operation_definition): "
                   "a plugin that stores the string it is shown (ExtractOperations) otherwise keeps an operation without its fragment definitions, and the client sends a document with unknown fragments",
